@@ -188,6 +188,8 @@ type c12Run struct {
 
 var c12Base int // goroutine count of the test process with no wheel alive
 
+var c12Confirmed bool // some violation has been reproduced by a slow replay
+
 func c12Pause(i int) {
 	if i < 64 {
 		runtime.Gosched()
@@ -466,8 +468,14 @@ func c12Confirm(r *c12Run, err error) (violation string, inconclusive string) {
 	if _, ok := err.(*c12Violation); !ok {
 		return "", err.Error()
 	}
+	if c12Confirmed {
+		// a violation was already reproduced by a slow replay in this process: this run
+		// fails anyway, what follows is shrinking, which would only be slowed down
+		return err.Error(), ""
+	}
 	_, err2 := c12Replay(r.n, r.iv, r.ops, true)
 	if v2, ok := err2.(*c12Violation); ok {
+		c12Confirmed = true
 		return err.Error() + "\n  confirmed by slow replay: " + strings.SplitN(v2.msg, "\n", 2)[0], ""
 	}
 	return "", fmt.Sprintf("mismatch not reproduced by slow replay (%v): %s", err2, err.Error())
